@@ -226,6 +226,25 @@ func (v *Verifier) callCallbackParam(st *State, in ssa.Instruction, cb *Callback
 	uw := st.unknownWrites
 	v.havocAllExcept(st, keep)
 	st.unknownWrites = uw
+	// marks: the ghost flag of the argument records that the callback was called for it
+	for _, mk := range cb.Marks {
+		call, ok := mk.(*ECall)
+		if !ok || len(call.Args) != 1 {
+			v.unsupportedf("callback marks needs g(arg)")
+		}
+		id, ok := call.Fn.(*EIdent)
+		if !ok {
+			v.unsupportedf("callback marks needs g(arg)")
+		}
+		g := v.prog.ghosts[id.Name]
+		if g == nil || g.Key == nil || g.Key2 != nil {
+			v.unsupportedf("callback marks: %s is not a per-object ghost variable", id.Name)
+		}
+		obj := v.specEnv(st, vars).eval(call.Args[0])
+		name := "G!" + g.Name
+		srt := arr("Int", "Bool")
+		v.env.heapSet(st, name, srt, sto(v.env.heapGet(st, name, srt), obj.T, "true"))
+	}
 	v.frameCheckpoint(st)
 	if retT == nil {
 		return Value{}
@@ -405,6 +424,17 @@ func (v *Verifier) applyContract(st *State, in ssa.Instruction, key string, ct *
 				st.assume(seA.evalBool(inv.E))
 			}
 		})
+	}
+	if !ct.Pure {
+		// history ghosts may be changed by any call
+		for _, g := range v.prog.ghosts {
+			if g.History && g.Key != nil && g.Key2 == nil {
+				name := "G!" + g.Name
+				if srt := st.hsort[name]; srt != "" {
+					v.env.heapHavoc(st, name, srt)
+				}
+			}
+		}
 	}
 	if everything {
 		v.havocAll(st)
